@@ -24,6 +24,7 @@ def run(ctx):
         tp.two_writers(rep, 'R01.e', fam)
         tp.endianness(rep, 'R01.i', fam)
     tp.compact_typestate(rep, 'R01.c', prog, cg)
+    tp.long_form_id_becomes_context(rep, 'R01.c', prog, cg)
     # the unchecked writer on a linked buffer: pending bytes are committed before a payload is linked in (zero-copy on)
     import unsafe_codec
     unsafe_codec.zero_copy_sites(rep, 'R01.z', prog, cg)
